@@ -5,9 +5,12 @@
    one agent per cell and one shelf per cell; every agent and shelf is inside the grid; a carried shelf is under its agent;
    the number of shelves is conserved; the stored mask is the mask of the successor.  The proof follows the sequential scan
    with the alternative "consistent so far" / "doomed" and shows a doomed final world is exactly what is_collision detects.
-   NOT proved here (checked by the verified checker Inv_b on every visited non-terminal state): the request-queue part of Inv
-   (distinct ids, requested flags = queue membership) is preserved by the goal scan under valid draws. *)
-Require Import JV.Base.Prelude JV.Base.JaxIndex JV.Base.Codec JV.Base.TimeStep JV.Model.RobotWarehouse JV.Proofs.RobotWarehouse_lib JV.Proofs.RobotWarehouse JV.Proofs.RobotWarehouse_Step JV.Proofs.RobotWarehouse_Check.
+   The request-queue part of Inv (queue of distinct valid shelf ids of the configured length, requested flags = queue
+   membership) is preserved too: the agents' scan never touches a request flag, and the goal scan replaces a delivered id by
+   the re-request draw and flips exactly the two flags, for every draw that is valid (draws_ok: a shelf id not currently in
+   the queue, as jax.random.choice over setdiff1d(shelf_ids, request_queue) returns).  Hence the FULL invariant Inv is
+   preserved by every collision-free step, and along every run of such steps. *)
+Require Import JV.Base.Prelude JV.Base.JaxIndex JV.Base.Codec JV.Base.TimeStep JV.Model.RobotWarehouse JV.Proofs.RobotWarehouse_lib JV.Proofs.RobotWarehouse JV.Proofs.RobotWarehouse_Step JV.Proofs.RobotWarehouse_Check JV.Proofs.RobotWarehouse_Queue.
 Theorem C07_RobotWarehouse_step_consistent c s acts draws :
   Inv c s -> zlen acts = nag c -> collided c s acts = false ->
   let s' := fst (step c s acts draws) in
@@ -20,11 +23,32 @@ Proof. exact (WInv_agents_distinct c n m w i j). Qed.
 Theorem C07_RobotWarehouse_one_shelf_per_cell c n m w i j :
   WInv c n m w -> 0 <= i < m -> 0 <= j < m -> spos (w_sh w) i = spos (w_sh w) j -> i = j.
 Proof. exact (WInv_shelves_distinct c n m w i j). Qed.
+(* the request queue through the goal scan alone *)
+Theorem C07_RobotWarehouse_goal_scan_queue m gs gl st draws :
+  zlen (snd (fst st)) = m -> queue_ok m (snd (fst st)) (fst (fst st)) ->
+  draws_ok m gs st gl draws = true ->
+  let st' := goals_scan gs st gl draws in
+  queue_ok m (snd (fst st')) (fst (fst st')) /\ zlen (fst (fst st')) = zlen (fst (fst st)) /\ zlen (snd (fst st')) = m.
+Proof. exact (goals_scan_queue_ok m gs gl st draws). Qed.
+(* the agents' scan never changes a request flag (any actions, collision or not) *)
+Theorem C07_RobotWarehouse_moves_keep_requests c s acts : map sreq (w_sh (moved c s acts)) = map sreq (shelves s).
+Proof. exact (moved_sreq c s acts). Qed.
+(* the full invariant, one step and along runs *)
+Theorem C07_RobotWarehouse_step_preserves_Inv c s acts draws :
+  Inv c s -> zlen acts = nag c -> collided c s acts = false ->
+  draws_ok (zlen (shelves s)) (w_gs (moved c s acts)) (queue s, w_sh (moved c s acts), 0) (goals c) draws = true ->
+  Inv c (fst (step c s acts draws)).
+Proof. exact (step_preserves_Inv c s acts draws). Qed.
+Theorem C07_RobotWarehouse_run_preserves_Inv c tr s : Inv c s -> run_ok c s tr -> Inv c (run c s tr).
+Proof. exact (run_preserves_Inv c tr s). Qed.
 (* the boolean twin run on implementation states is sound *)
 Theorem C07_RobotWarehouse_checker_sound c s : Inv_b c s = true -> Inv c s.
 Proof. exact (Inv_b_sound c s). Qed.
 Print Assumptions C07_RobotWarehouse_step_consistent.
 Print Assumptions C07_RobotWarehouse_checker_sound.
+Print Assumptions C07_RobotWarehouse_goal_scan_queue.
+Print Assumptions C07_RobotWarehouse_step_preserves_Inv.
+Print Assumptions C07_RobotWarehouse_run_preserves_Inv.
 Example C07_RobotWarehouse_nonvacuous :
   Inv_b ex_c ex_s0 = true /\ Inv_b ex_c ex_s1 = true
   (* agent 0 turns, agent 1 turns away and walks: consistent; carrier moves its shelf along the aisle-free row: consistent *)
@@ -33,5 +57,14 @@ Example C07_RobotWarehouse_nonvacuous :
   /\ count_cells (gsh (fst (step ex_c ex_s1 [LEFT; RIGHT] [0; 0]))) = 2
   (* agent 1 walks into agent 0: the collision test fires, and the agents layer of that (terminal) state has lost agent 0's mark *)
   /\ collided ex_c ex_s1 [NOOP; FORWARD] = true
-  /\ Inv_b ex_c (fst (step ex_c ex_s1 [NOOP; FORWARD] [0; 0])) = false.
+  /\ Inv_b ex_c (fst (step ex_c ex_s1 [NOOP; FORWARD] [0; 0])) = false
+  (* a delivery: agent 0 carries the requested shelf (id 0) onto the goal (5,1); re-request draw 1 is valid, draw 0 (still in the
+     queue) is not; the queue becomes [1], the flags flip, reward 1, and the successor satisfies the full invariant *)
+  /\ Inv_b ex_c ex_sd = true /\ collided ex_c ex_sd [FORWARD; NOOP] = false
+  /\ draws_ok 2 (w_gs (moved ex_c ex_sd [FORWARD; NOOP])) (queue ex_sd, w_sh (moved ex_c ex_sd [FORWARD; NOOP]), 0) (goals ex_c) [1; 0] = true
+  /\ draws_ok 2 (w_gs (moved ex_c ex_sd [FORWARD; NOOP])) (queue ex_sd, w_sh (moved ex_c ex_sd [FORWARD; NOOP]), 0) (goals ex_c) [0; 0] = false
+  /\ queue (fst (step ex_c ex_sd [FORWARD; NOOP] [1; 0])) = [1]
+  /\ shelves (fst (step ex_c ex_sd [FORWARD; NOOP] [1; 0])) = [mkSh 5 1 false; mkSh 1 2 true]
+  /\ reward (snd (step ex_c ex_sd [FORWARD; NOOP] [1; 0])) = [1]
+  /\ Inv_b ex_c (fst (step ex_c ex_sd [FORWARD; NOOP] [1; 0])) = true.
 Proof. vm_compute. repeat split; reflexivity. Qed.
